@@ -292,7 +292,7 @@ func init() {
 		e.Assumed["UnmarshalBinary of types with unknown dynamic type (third-party assets, addresses, app ids, data): does not panic, touches only its receiver"] = true
 		// ghost: the value has been handed to its unmarshaler
 		um := e.ghostArr(st, "unmarshalled", SArrB)
-		e.setGhost(st, "unmarshalled", e.tb.Store(um, e.tb.App("umkey", SInt, recv.ifTag(), recv.ifVal()), e.tb.True()))
+		e.setGhost(st, "unmarshalled", e.tb.Store(um, recv.ifVal(), e.tb.True()))
 		k(st, e.freshVal(st, c.Signature().Results().At(0).Type(), "unm_err"))
 	}
 	libIface["encoding.BinaryMarshaler.MarshalBinary"] = func(e *Engine, st *State, c *ssa.CallCommon, recv Val, args []Val, pos token.Pos, k Kont) {
